@@ -405,4 +405,69 @@ instance instDecidableRunOK (E : Env) : (s : Sys) → (ops : List Op) → Decida
     have := instDecidableRunOK E (step E s op).sys ops
     by unfold RunOK; infer_instance
 
+/-! ### a successful readCurrent check stays valid until the holder itself finishes or aborts -/
+
+theorem step_vote_sys (E : Env) (s : Sys) (t : TxnId) (hl : s.lock = some t) :
+    (step E s (.vote t)).sys = { s with voted := true } := by
+  simp only [step]
+  rw [if_pos hl]
+  cases s.kind with
+  | simple k => rfl
+  | demo kc kb => simp only; split <;> rfl
+
+theorem step_keeps_checked (E : Env) (k : Kind) (base : Hist) (s : Sys) (hi : Inv E k base s)
+    (t : TxnId) (hl : s.lock = some t) (op : Op) (h1 : op ≠ .finish t) (h2 : op ≠ .abort t) :
+    (step E s op).sys.lock = some t ∧ ∀ p ∈ s.checked, p ∈ (step E s op).sys.checked := by
+  by_cases ha : op.actor = t
+  · cases op with
+    | begin t' tid =>
+      simp only [Op.actor] at ha
+      subst ha
+      have : (step E s (.begin t' tid)).sys = s := by simp [step, hl]
+      rw [this]; exact ⟨hl, fun p hp => hp⟩
+    | store t' oid serial data =>
+      simp only [Op.actor] at ha
+      subst ha
+      rw [step_store_eq E k base s hi t' hl]
+      obtain ⟨_, h2', _, _, h5, _⟩ := storeSpec_hist E s oid serial data
+      rw [h2', h5]
+      exact ⟨hl, fun p hp => hp⟩
+    | check t' oid serial =>
+      rcases step_check_sys E s t' oid serial with h | ⟨_, h⟩
+      · rw [h]; exact ⟨hl, fun p hp => hp⟩
+      · rw [h]; exact ⟨hl, fun p hp => List.mem_cons_of_mem _ hp⟩
+    | vote t' =>
+      simp only [Op.actor] at ha
+      subst ha
+      rw [step_vote_sys E s t' hl]
+      exact ⟨hl, fun p hp => hp⟩
+    | finish t' =>
+      simp only [Op.actor] at ha
+      subst ha
+      exact absurd rfl h1
+    | abort t' =>
+      simp only [Op.actor] at ha
+      subst ha
+      exact absurd rfl h2
+  · rw [step_nonholder E s t op hl ha]
+    exact ⟨hl, fun p hp => hp⟩
+
+/-- over ANY continuation of the schedule that does not contain the holder's own finish / abort,
+    the holder keeps the lock and every pair it has checked successfully is still current -/
+theorem run_keeps_checked (E : Env) (k : Kind) (base : Hist) (hb : Sorted base) (s : Sys)
+    (h : Reachable E k base s) (t : TxnId) (hl : s.lock = some t) (ops : List Op)
+    (hops : ∀ op ∈ ops, op ≠ .finish t ∧ op ≠ .abort t) (hok : RunOK E s ops) :
+    (run E s ops).lock = some t ∧ ∀ p ∈ s.checked, currentTid (run E s ops).view p.1 = some p.2 := by
+  induction ops generalizing s with
+  | nil =>
+    exact ⟨hl, (reachable_inv E k base hb s h).checked⟩
+  | cons op ops ih =>
+    simp only [run]
+    have hi := reachable_inv E k base hb s h
+    obtain ⟨h1, h2⟩ := hops op List.mem_cons_self
+    obtain ⟨hl', hck⟩ := step_keeps_checked E k base s hi t hl op h1 h2
+    obtain ⟨r1, r2⟩ := ih (step E s op).sys (.step op h hok.1) hl'
+      (fun op' h' => hops op' (List.mem_cons_of_mem _ h')) hok.2
+    exact ⟨r1, fun p hp => r2 p (hck p hp)⟩
+
 end Proofs.StoreRules
